@@ -543,7 +543,9 @@ impl<'a> St<'a> {
 }
 
 pub fn run(prog: &Program, sides: Sides) -> RunResult {
-    let domain = Domain::new();
+    let mut domain = Domain::new();
+    // a full subscriber buffer must not block the (single-threaded) program
+    domain.config.defaults.publish_subscribe.backpressure_strategy = iceoryx2::prelude::BackpressureStrategy::DiscardData;
     let track = sides.0.contains(&Side::C);
     let _ = c_exec::take_problems();
     if track {
